@@ -733,3 +733,7 @@ package app
 //@ func (*app.App).getClusterStateFromDcs
 //@   ensures C20.states_ok [C20]: result1 == nil ==> statesOK(app, result0)
 //@   ensures C20.err_nil_map [C20]: result1 != nil ==> result0 == nil
+//@ define appDCSOK(a *appDCS) = a.dcs != nil && a.config != nil && a.logger != nil
+//@ typeinv *app.appDCS appDCSOK init app.NewAppDCS
+//@ define azFilterOK(f *azLimitedOfflineFilter) = f.logger != nil
+//@ typeinv *app.azLimitedOfflineFilter azFilterOK init app.NewOfflineModeFilter
